@@ -78,23 +78,60 @@ func FOLDUNFOLD_Generic_json(h *rt.H)   { foldUnfoldGeneric(h, jsonCodec) }
 type selfRef struct {
 	V    int
 	Next *selfRef
+	Kids []selfRef
+	M    map[string]*selfRef `struct:",omitempty"`
 }
 
-// SELFREF (C11): a self-referential type must be handled or refused with an error,
-// not by a crash (unbounded recursion while the folder/unfolder is compiled).
+// SELFREF (C11): self-referential types (a struct through a pointer, a slice and a
+// map field; a slice type and a map type that contain themselves) are folded and
+// unfolded like any other type - or refused with an error, never by a crash
+// (unbounded recursion while the folder/unfolder is compiled).
 func SELFREF(h *rt.H) {
-	if h.Choose("unfold", 0, 1) == 1 {
-		h.Tag("selfref.unfold")
-		var to selfRef
-		_, err := gotype.NewUnfolder(&to)
-		h.ObserveBool("refused", err != nil)
+	x, y := int8(h.U8("x")), int8(h.U8("y"))
+	var err, nerr error
+	ok := false
+	switch h.Choose("type", 0, 2) {
+	case 0:
+		h.Tag("selfref.struct")
+		v := selfRef{V: int(x), Next: &selfRef{V: int(y), Kids: []selfRef{{V: int(x)}}}, M: map[string]*selfRef{"k": {V: int(y)}}}
+		var out selfRef
+		u, e := gotype.NewUnfolder(&out)
+		if nerr = e; e == nil {
+			err = gotype.Fold(v, u)
+		}
+		ok = out.Next != nil && out.Next.Next == nil && len(out.Kids) == 0 && len(out.Next.Kids) == 1 && out.M["k"] != nil
+		if ok {
+			ok = rt.And(rt.And(out.V == int(x), out.Next.V == int(y)), rt.And(out.Next.Kids[0].V == int(x), out.M["k"].V == int(y)))
+		}
+	case 1:
+		h.Tag("selfref.slice")
+		v := selfSlice{selfSlice{}, selfSlice{selfSlice{}}}
+		var out selfSlice
+		u, e := gotype.NewUnfolder(&out)
+		if nerr = e; e == nil {
+			err = gotype.Fold(v, u)
+		}
+		ok = len(out) == 2 && len(out[0]) == 0 && len(out[1]) == 1 && len(out[1][0]) == 0
+	case 2:
+		h.Tag("selfref.map")
+		v := selfMap{"a": selfMap{"b": selfMap{}}}
+		var out selfMap
+		u, e := gotype.NewUnfolder(&out)
+		if nerr = e; e == nil {
+			err = gotype.Fold(v, u)
+		}
+		ok = len(out) == 1 && len(out["a"]) == 1 && out["a"]["b"] != nil && len(out["a"]["b"]) == 0
+	}
+	if nerr != nil {
+		h.Tag("target-refused")
 		return
 	}
-	h.Tag("selfref.fold")
-	var rec nullCounter
-	err := gotype.Fold(selfRef{V: 1, Next: &selfRef{V: 2}}, &rec)
-	h.Assert("fold-no-error", err == nil)
+	h.Assert("no-error", err == nil)
+	h.Assert("deep-equal", ok)
 }
+
+type selfSlice []selfSlice
+type selfMap map[string]selfMap
 
 type nullCounter struct{ ev.Recorder }
 
